@@ -754,7 +754,9 @@ def correspond(ctx):
         seen.add(f.signature)
     c.failures = first + rest
 
-    c.evaluations = len(cases)
+    nbridge = bridge_correspond(ctx, c)
+
+    c.evaluations = len(cases) + nbridge
     c.rule = ('real SynthDef builds of generated graph programs (catalogue of %d unit classes + arithmetic, controls, variants); '
               'model parser/wf_def/writer/read_desc evaluated by vm_compute on the real bytes; non-trivial = bytes were '
               'emitted for a definition with at least two units' % len(CAT))
@@ -768,6 +770,62 @@ def correspond(ctx):
         c.failures.append(Failure('correspondence', 'generator degenerated: only %d of %d valid-stream programs compiled' % (nbuilt, nvalid)))
     ctx.c02_cases = (cases, outs)
     return c
+
+
+BRIDGE_STAGE = {1: 'the compiler model and the library disagree on whether the program compiles',
+                2: 'a unit input constant is not in the constant table of the compiler model\'s output',
+                3: 'graph_ok fails on the compiler model\'s output (an input is not a collected constant / an output of a strictly earlier unit, or a field is out of range)',
+                4: 'wf_def fails on to_sdef of the compiler model\'s output',
+                5: 'write_def (to_sdef (compile p)) differs from the bytes the real SynthDef emits'}
+
+
+def bridge_correspond(ctx, c):
+    """model compiler (coq/model/Graph.v, build-C01's) + to_sdef + model writer  ==  real bytes, on
+    programs of C01's generator.  Returns the number of programs evaluated."""
+    try:
+        from props import c01_common as cc
+    except Exception as e:                     # C01's harness is not ours: degrade visibly
+        c.notes.append('bridge correspondence skipped: cannot import props.c01_common (%r)' % (e,))
+        c.failures.append(Failure('correspondence', 'bridge: cannot import C01 generator: %r' % (e,)))
+        return 0
+    from fractions import Fraction
+    rng = ctx.rng
+    progs = []
+    for _ in range(ctx.n(60, 500)):
+        progs.append(cc.gen_prog(rng, rng.choice([1, 2, 3, 5, 8, 12, 20, 30]), demand=rng.random() < 0.5,
+                                 wf=rng.random() < 0.6, invalid=0.0))
+    outs = ctx.impl('c02_bridge', {'cases': progs}, timeout=900)['out']
+    items = []
+    cbz = lambda x: cb(x) + '%Z'          # Graph.v opens nat_scope
+    for p, o in zip(progs, outs):
+        tab = clist(['(%s, %s)' % (fw.cq(Fraction(q)), cz(w)) for q, w in o['f32']])
+        pn = clist(['(%s, %s)' % (cbz(n), cz(i)) for n, i in o['pnames']])
+        real = ('(Some %s)' % cbz(bytes.fromhex(o['bytes']))) if o['bytes'] else 'None'
+        items.append('(GraphScgf.bridge_check CMP %s %s %s %s %s)' % (cc.cprog(p), cbz(o['name']), pn, tab, real))
+        c.count('bridge:' + ('bytes' if o['bytes'] else 'raised'))
+        if o['bytes']:
+            c.nontriv(('bridge', o['bytes'][:2000]))
+    # Scgf first, Graph last: both define inp / IOut / Ok / ...; the program terms are Graph's
+    header = ('Require Import SC3.model.Scgf SC3.model.GraphScgf.\n' + cc.HEADER +
+              '(* the compiler model with the regenerated flags, whatever their number *)\n'
+              'Definition CMP : prog -> res graph := ltac:(first [ exact (compile T dce_strict dce_guard sub_guard)'
+              ' | exact (compile T dce_strict dce_guard) ]).\n')
+    body = 'Eval vm_compute in bad_idx (fun c => (c =? 0)%Z) cases.'
+    bad, errs = fw.check_shards(ctx, 'bridge', header, items, body, shard=ctx.n(10, 40), timeout=1500)
+    for e in errs:
+        c.failures.append(Failure('correspondence', 'coq evaluation of bridge cases failed: ' + e))
+    import re
+    for i in bad[:6]:
+        rc, out = ctx.coq('bdiag', header + 'Eval vm_compute in %s.\n' % items[i], timeout=300)
+        mm = re.search(r'=\s*(\d+)', out)
+        stage = int(mm.group(1)) if mm else -1
+        why = oracle.check_bytes(bytes.fromhex(outs[i]['bytes'])) if outs[i]['bytes'] else None
+        c.failures.append(Failure(
+            'correspondence', 'bridge (compiler model + writer vs real bytes), program %s: %s; library: %s; independent reader on the real bytes: %s' % (
+                json.dumps(progs[i])[:300], BRIDGE_STAGE.get(stage, 'stage %s' % stage),
+                'bytes' if outs[i]['bytes'] else outs[i]['err'], why or 'ok'),
+            found_input=bool(why), replay={'prog': progs[i], 'impl': outs[i], 'stage': stage}))
+    return len(progs)
 
 
 def search(ctx, failures):
@@ -788,6 +846,32 @@ def search(ctx, failures):
             found.append(Failure('search', 'independent SCgf-2 reader rejects the bytes emitted for %r (%s): %s' % (k['name'][:30], label, why),
                                  signature=sig, found_input=True, theorem='scgf_roundtrip',
                                  replay={'case': short(k), 'bytes': o['bytes'], 'observed': why}))
+        elif o.get('desc_exc'):
+            # the bytes are a well-formed definition but the library's own reader does not accept them
+            found.append(Failure('search', 'SynthDesc.new_from rejects the well-formed bytes the library emitted for %r (%s): %s' % (
+                k['name'][:30], k.get('kind'), o['desc_exc'][:200]), found_input=True, theorem='reader_recovers',
+                replay={'case': short(k), 'bytes': o['bytes'], 'observed': o['desc_exc']}))
+        elif o.get('desc'):
+            d = o['desc']
+            decl = o.get('decl', [])
+            want_names = [n for n, _i, _r, _w in decl]
+            bad = None
+            if d['name'] != k['name']:
+                bad = 'definition name %r read back as %r' % (k['name'][:40], d['name'][:40])
+            elif d['cnames'] != want_names:
+                bad = 'control names %r read back as %r' % (want_names[:6], d['cnames'][:6])
+            elif o.get('defname') != k['name']:
+                bad = 'def_name_from_bytes returned %r' % (o.get('defname'),)
+            else:
+                for n, i, r, w in decl:
+                    if i >= len(d['ctls']) or d['ctls'][i][0] != n or d['ctls'][i][1] != r or d['ctls'][i][2] != w:
+                        bad = 'parameter %r (slot %d, rate %d, default words %r) read back as %r' % (
+                            n, i, r, w, d['ctls'][i] if i < len(d['ctls']) else None)
+                        break
+            if bad:
+                found.append(Failure('search', 'the library reader does not recover what the SynthDef declares: ' + bad,
+                                     found_input=True, theorem='reader_recovers',
+                                     replay={'case': short(k), 'bytes': o['bytes'], 'observed': bad}))
         if len(found) >= 5:
             break
     return found
